@@ -376,6 +376,18 @@ func TestMutants(t *testing.T) {
 		}
 		loc.flush(r, "mutants")
 	})
+	// every byte value at every position of a few templates (replaced and inserted)
+	sweep := gen.ByteSweep([]string{"1.2.3.4", "255.0.10.99", "::", "::1", "1::", "1:2:3:4:5:6:7:8", "fe80::a:B%eth0", "::ffff:1.2.3.4", "1:2::7:8", "[::1]:80", "1.2.3.4:65535", "[fe80::1%e0]:0",
+		"ab.example.com", "a-b.c1", "xn--e1afmkfd.com", "x", "a1-"})
+	mon.Parallel(len(sweep), func(w, lo, hi int) {
+		var loc local
+		for _, m := range sweep[lo:hi] {
+			ipCase(r, &loc, m)
+			hostCase(r, &loc, m)
+		}
+		loc.flush(r, "bytesweep")
+	})
+	r.Count("byte_sweep_texts", int64(len(sweep)))
 	r.Sample(map[string]any{"seed": seeds[3], "distance1_mutants": len(gen.Mutants1(seeds[3], syms)), "first": gen.Mutants1(seeds[3], syms)[:4]})
 
 	// seeded random strings and random edits of canonical texts
